@@ -212,11 +212,11 @@ def r4_routes(rep, ctx):
                 raise AnalysisError("%s: unit info lookup not recognised in %s" % (spec.qual, show(term)))
             if not routes.role_matches(gi_to["unit"], spec.target):
                 problems.append("from-base function is looked up for %s, not for the target unit" % show(gi_to["unit"]))
-            if not routes.role_matches(gi_from["unit"], spec.source):
+            if not routes.role_matches(gi_from["unit"], spec.source) and not _same_as_stored_field(m, fn, gi_from["unit"], spec.source):
                 problems.append("to-base function is looked up for %s, not for the source unit" % show(gi_from["unit"]))
             if not routes.role_matches(mt["value"], spec.value, elem=elementwise):
                 problems.append("converted value is %s, not the value argument%s" % (show(mt["value"]), " element" if elementwise else ""))
-            if gi_to["qt"] != gi_from["qt"]:
+            if gi_to["qt"] != gi_from["qt"] and not _field_equiv(m, fn, gi_to["qt"], gi_from["qt"]):
                 problems.append("source and target are looked up in different quantity types")
             rep.check(not problems, "C01.R4", key, "route returns frombase(target)(tobase(source)(value)) [%s]" % spec.why,
                       "; ".join(problems), node=ret, fn=fn, facts={"term": show(term, 400)})
@@ -248,6 +248,26 @@ def r4_routes(rep, ctx):
                           "registered conversion function is called with arguments out of protocol order: %s" % show(t, 300), node=n, fn=conv)
                 _shortcut(rep, m, conv, cfg, res, spec, n, tag="handoff")
     rep.floor("C01.R4", "hand-off to registered conversion types", handoffs, 1)
+
+
+def _same_as_stored_field(m, fn, t, role):
+    """The looked-up unit is a local of the constructor that is also what the constructor stores into the
+    role's field (`self._unit = unit` ... `GetInfo(qt, unit)`): the same value, spelled through the local."""
+    if role[0] != "field" or not fn.cls:
+        return False
+    from ..terms import field_stores
+    for sfn, value, st in field_stores(m, fn.cls, role[1]):
+        if Resolver(m, sfn).term(value) == t:
+            return True
+    return False
+
+
+def _field_equiv(m, fn, a, b):
+    """a is ('field', F) and b is the term some method of the class stores into F (or vice versa)."""
+    for x, y in ((a, b), (b, a)):
+        if x[0] == "field" and _same_as_stored_field(m, fn, y, ("field", x[1])):
+            return True
+    return False
 
 
 def _classify_returns(rep, m, spec):
